@@ -53,7 +53,7 @@ CLAIMS = {
              "pairing of a key with its value is evaluated abstractly for every value mode x {nothing, value, key} "
              "following (required without value throws, optional never takes a glued rest, 'command' ends the "
              "evaluation). "
-             "Requires/excludes entries carry the kind they were defined with (ConstraintRequires / ConstraintExcludes pass the kind they are named after); a handler constraint is registered only after validated(); a tuple value is converted to the type of the element it belongs to (element index = member counter of the values stored so far); the disjoint constraint is decided for values in any order (an adapter of an unsorted container never reaches a merge-shaped helper without an is_sorted() guard); argument and handler constraints are activated on every use of an argument; handler constraint lists hold the complete keys of the arguments they name. Path rules quantify over all command lines because they quantify over all paths.",
+             "Requires/excludes entries carry the kind they were defined with (ConstraintRequires / ConstraintExcludes pass the kind they are named after); a handler constraint is registered only after validated(); a tuple value is converted to the type of the element it belongs to (element index = member counter of the values stored so far); the disjoint constraint is decided for values in any order (an adapter of an unsorted container never reaches a merge-shaped helper without an is_sorted() guard); argument and handler constraints are activated on every use of an argument; handler constraint lists hold the complete keys of the arguments they name; the pattern check matches the whole value (regex_match). Path rules quantify over all command lines because they quantify over all paths.",
         note="trusts clang AST/CFG and the extractor; exceptions are the only failure channel; value conversion "
              "itself (boost::lexical_cast) and regex/file-system check semantics are not decided",
         technique="static analysis: CFG must-pass-through / dominance / sibling agreement over resolved calls"),
@@ -90,7 +90,7 @@ CLAIMS = {
              "outside the program: a loop driven by a stream read must end at the first failed read (end of file or "
              "error), and for the element loop over an argument vector: every step of the argument iterator is proved to move "
              "the cursor forward (word index, then character position; the nested step on a lone '--' by induction). "
-             "Termination of the remaining loops is NOT decided. Downcast provenance: every pointer that a Handler member static_casts to the sub-group argument class comes, on every reaching definition, out of the container that only receives sub-group objects (or is null); container.erase( it) with the iterator of a search only over an edge on which it != end() is known; a noexcept repository function calls (outside try) no repository function from which an exception can escape; smart-pointer members of the argument handling are held by value (shared objects stay alive under their writers); the nesting of argument files is bounded (readArgumentFile() tests a member it updates before it evaluates a line, and throws).",
+             "Termination of the remaining loops is NOT decided. Downcast provenance: every pointer that a Handler member static_casts to the sub-group argument class comes, on every reaching definition, out of the container that only receives sub-group objects (or is null); container.erase( it) with the iterator of a search only over an edge on which it != end() is known; a noexcept repository function calls (outside try) no repository function from which an exception can escape; smart-pointer members of the argument handling are held by value (shared objects stay alive under their writers); the nesting of argument files is bounded (readArgumentFile() tests a member it updates before it evaluates a line, and throws); a moved-from object gives up the array it owned.",
         note="trusted base: clang front end, extractor, cv/lin.py + cv/bounds.py and its models of "
              "strlen/strcpy/new[]/std::vector/std::string; argc >= 1, argv words are C strings shorter than 2 GiB, "
              "argv[argc] is null",
@@ -142,7 +142,7 @@ CLAIMS = {
              "is written by no function that runs once per chunk of words, so a value list continues across file "
              "lines / environment / argv exactly as across argv words; the line loop of the argument file runs for every "
              "line the read delivers (incl. an unterminated last line); the sub-group handler a word is dispatched to "
-             "evaluates it in the read mode of the dispatching handler; both constructors of ArgString2Array hand the word list of the splitter to the argv array unmodified (no word removed, added or rewritten); the value stored into a scalar destination never depends on its previous content (a flag stores the configured value: a flag from a file given again on the command line stays set); the environment variable that is read is the one the application named (the name is derived / upper-cased only when none was set). Other quoting disciplines and "
+             "evaluates it in the read mode of the dispatching handler; both constructors of ArgString2Array hand the word list of the splitter to the argv array unmodified (no word removed, added or rewritten); the value stored into a scalar destination never depends on its previous content (a flag stores the configured value: a flag from a file given again on the command line stays set); the environment variable that is read is the one the application named (the name is derived / upper-cased only when none was set); the lines of an argument file reach the splitter unmodified. Other quoting disciplines and "
              "value equality between sources are not decided.",
         note="trusts clang AST/CFG; std::string append/clear semantics; round trip claimed for backslash escaping only",
         also=("engine A (cfg.py)", "engine C (lin.py, bounds.py)"),
@@ -230,7 +230,7 @@ CLAIMS = {
              "shapes of Filters::pass (conjunction), Logging::log, Log::message, ILogDest::handleMessage "
              "(exactly-once delivery under the filters), completeness/distinctness of the class and level name "
              "tables, single-writer and no-reset rules for the duplicate policy; the class-list filter sets exactly the bit "
-             "of every class it names and pass() returns exactly the bit of the message's class; a level filter whose verdict does not depend on the message level / the configured level is a violation; the macro pre-check (discard_by_level) asks Filters::processLevel of the log or a sound refinement (no discard from inside the loop over the destinations); removing a destination removes exactly the named one (single-element erase or erase-remove idiom); every filter setter reaches the duplicate policy (checkSetFilter) on every normal path.",
+             "of every class it names and pass() returns exactly the bit of the message's class; a level filter whose verdict does not depend on the message level / the configured level is a violation; the macro pre-check (discard_by_level) asks Filters::processLevel of the log or a sound refinement (no discard from inside the loop over the destinations); removing a destination removes exactly the named one (single-element erase or erase-remove idiom); logs are looked up by the exact name (comparisons inside generic lambdas are not visible: analysis-broken); every filter setter reaches the duplicate policy (checkSetFilter) on every normal path.",
         note="trusts clang AST/CFG; the full (level x class x filter-history) table as executed is not decided",
         also=("engine B (boolshape.py)", "engine E (effects.py)"),
         technique="static analysis: enum-capacity facts, truth tables over orderings, CFG loop-shape rules"),
@@ -243,7 +243,7 @@ CLAIMS = {
              "check -> write -> account and close -> roll -> open orderings by dominance; after every rollFiles() call "
              "openCheck() sees the new file before the function returns; roll loops shift "
              "generation n-1 to n with n descending; files::Handler<P, L>::message() holds a named lock guard on its lock "
-             "member around writeMessage(); filename::Builder renders the generation number completely and unmodified (every generation has its own name); the OS file layer passes rename / remove to the C library unconditionally with the arguments in place. Breaking any of these breaks the property for some history; "
+             "member around writeMessage(); filename::Builder renders the generation number completely and unmodified (every generation has its own name); the OS file layer passes rename / remove to the C library unconditionally with the arguments in place; the text written for a message is formatted into a stream of its own. Breaking any of these breaks the property for some history; "
              "histories, restarts and crash points themselves are not decided.",
         note="trusts clang AST/CFG and constant folding; libstdc++ openmode bit values; std::endl writes one byte",
         also=("engine B (boolshape.py)",),
@@ -368,7 +368,7 @@ CLAIMS = {
         level="other", engine="engine E (effects.py)",
         text="Static lockset/dominance and initialisation-order analysis of every Singleton<T>::instance/reset and "
              "ManagedThread constructor instantiation: decides the structural necessary conditions (every access to "
-             "the shared pointer under the static mutex, one null-tested construction site, constant-initialised static members, flag initialised before "
+             "the shared pointer under the static mutex, one null-tested construction site, constant-initialised static members, no further static state in instance(), flag initialised before "
              "the thread starts, atomic flag set/cleared around the user function, isActive() reports that flag and consults "
              "nothing else - writing nothing and reading exactly one member -, the destructor joins on every path on which the handle is joinable - whatever the flag says - and never detaches) for all schedules at once; it does "
              "not execute any interleaving.",
